@@ -4,18 +4,19 @@ import RsslVerif.Gen.BinopTyping
 
 `typer/src/typer/expressions.rs::parse_expr_binop`, arm of the arithmetic / comparison / bit / logic operators, for operands
 that are scalars or enums (modifiers removed): `&&` / `||` convert to `bool`; the bit operators refuse operands that are
-not integer-like (`IntegerTypeExpected`); otherwise `most_significant_non_vector` picks the operand type of higher
-`get_non_vector_conversion_rank` (the right one on a tie: `left_order > right_order`), and a `bool` result is replaced
-("Remap all bool types to int"). Every table used here is re-extracted from the source: ranks, `require_integer`, the
-short-circuit test (`Gen.TypingTables`, property C03's extractor) and the remap rule with the operators it applies to
-(`Gen.BinopTyping`). The constant folder never sees this decision — the operands reach it already converted — so a wrong
+not integer-like (`IntegerTypeExpected`); otherwise `most_significant_non_vector` first replaces an enum operand that
+meets an operand of another type by the underlying type of its enum (two enum operands stay as they are), then picks the
+operand type of higher `get_non_vector_conversion_rank` (the right one on a tie: `left_order > right_order`), and a
+`bool` result is replaced ("Remap all bool types to int"). Every table used here is re-extracted from the source: ranks,
+`require_integer`, the short-circuit test (`Gen.TypingTables`, property C03's extractor), how an enum operand enters the
+rank comparison and the remap rule with the operators it applies to (`Gen.BinopTyping`). The constant folder never sees this decision — the operands reach it already converted — so a wrong
 common type is a wrong constant that no evaluator theorem can notice; `Thm.C13.binop_common_type_*` speak about it.
 -/
 namespace RsslVerif.Model.ConstBinop
 open RsslVerif.Gen.RankTable RsslVerif.Gen.TypingTables RsslVerif.Gen.BinopTyping
 
-/-- an operand type as `parse_expr_binop` distinguishes it: a scalar kind or an enum (every enum has the same rank; whether
-    its underlying type is `int` or `uint` does not influence the code — it is carried for the specification) -/
+/-- an operand type as `parse_expr_binop` distinguishes it: a scalar kind or an enum with its underlying type (every enum
+    has the same rank *as an enum*; next to an operand that is not an enum it takes part as its underlying `int` / `uint`) -/
 inductive OpShape where
   | scalar (s : Scalar)
   | enumInt
@@ -43,12 +44,38 @@ def isIntegerLike : OpShape → Bool
   | .scalar s => isIntegerScalar s
   | _ => true
 
-/-- `most_significant_non_vector`: `if left_order > right_order { left } else { right }` -/
-def pick (l r : OpShape) : Target :=
+def OpShape.isEnum : OpShape → Bool
+  | .scalar _ => false
+  | _ => true
+
+/-- `enum_registry.get_underlying_type_id` -/
+def OpShape.underlying : OpShape → OpShape
+  | .enumInt => .scalar .int32
+  | .enumUInt => .scalar .uInt32
+  | s => s
+
+def enterAs : EnumEntry → OpShape → OpShape
+  | .asEnum, s => s
+  | .underlying, s => s.underlying
+
+/-- `most_significant_non_vector`, first step: `let (left, right) = match (left_tyl, right_tyl) { .. }` -/
+def enter (l r : OpShape) : OpShape × OpShape :=
+  match l.isEnum, r.isEnum with
+  | true, true => (enterAs twoEnumsEntry l, enterAs twoEnumsEntry r)
+  | true, false => (enterAs loneEnumEntry l, r)
+  | false, true => (l, enterAs loneEnumEntry r)
+  | false, false => (l, r)
+
+/-- `most_significant_non_vector`, after that step: `if left_order > right_order { left } else { right }` -/
+def pickEntered (l r : OpShape) : Target :=
   if rank l > rank r then
     (match l with | .scalar s => .scalar s | _ => .left)
   else
     (match r with | .scalar s => .scalar s | _ => .right)
+
+/-- `most_significant_non_vector` -/
+def pick (l r : OpShape) : Target :=
+  pickEntered (enter l r).1 (enter l r).2
 
 /-- "Remap all bool types to int": `extract_scalar(target) == Some(remapFrom)` (with the conditions of the `if`) -/
 def remap (op : BinOp) : Target → Target
